@@ -32,7 +32,7 @@ type srvStream struct {
 // faults that writes one stream of application data before the handshake completes. The run line reports
 // what the client API said and what the server application read on the second connection.
 func (sc *scenario) runZeroRTT() (out *outcome) {
-	out = &outcome{cids: "-", ccids: "-", acc: "-", echo: "-", redial: "-", calpn: "-", salpn: "-"}
+	out = &outcome{cids: "-", ccids: "-", vers: "-", acc: "-", echo: "-", redial: "-", calpn: "-", salpn: "-"}
 	start := time.Now()
 	savedRand := rand.Reader
 	rand.Reader = &detRand{r: vh.NewRand(sc.seed ^ 0x5eed)}
